@@ -136,7 +136,12 @@ def build_csr_mux(lay, ov=None, name_prefix="r"):
                 Fragment.get(mux, None)
             except ValueError:
                 pass          # a deliberately refused (unbalanceable) intermediate layout
-        _, regs = build_csr_map(lay, name_prefix=name_prefix, into=(mm, regs))
+        try:
+            _, regs = build_csr_map(lay, name_prefix=name_prefix, into=(mm, regs))
+        except ValueError:
+            # the map no longer accepts registers (e.g. frozen by the multiplexer): whether that is
+            # allowed is C02's/C19's business; here the layout is simply built in the usual order
+            return build_csr_mux(dict(lay, late=0), ov, name_prefix)
     return mux, regs
 
 
@@ -396,6 +401,17 @@ def plan_windows(al, subs_maw, subs, shuffle=False, base=0):
 
 
 def build_csr_decoder(cfg, ifaces=None, prefix="w"):
+    try:
+        return _build_csr_decoder(cfg, ifaces, prefix)
+    except ValueError as e:
+        # add() refused after an intermediate elaboration (a decoder that freezes on elaboration): judged by
+        # C19, not by the behavioural checks - build again without the intermediate elaboration
+        if cfg.get("mid_elab") is not None and "frozen" in str(e).lower():
+            return _build_csr_decoder(dict(cfg, mid_elab=None), None if ifaces is None else ifaces, prefix)
+        raise
+
+
+def _build_csr_decoder(cfg, ifaces=None, prefix="w"):
     """-> (decoder, [sub interfaces], plan [(start, reserved_end)]). May raise ValueError when
     cfg['squeeze'] made the decoder too small (a deliberate refusal). ``ifaces``: pre-built
     subordinate interfaces (their address widths are used instead of cfg['subs'][i]['aw'])."""
@@ -507,6 +523,15 @@ def wb_sub_map_aw(s):
 
 
 def build_wb_decoder(cfg, ifaces=None, prefix="w"):
+    try:
+        return _build_wb_decoder(cfg, ifaces, prefix)
+    except ValueError as e:
+        if cfg.get("mid_elab") is not None and "frozen" in str(e).lower():
+            return _build_wb_decoder(dict(cfg, mid_elab=None), ifaces, prefix)
+        raise
+
+
+def _build_wb_decoder(cfg, ifaces=None, prefix="w"):
     """-> (decoder, [sub interfaces], plan in decoder-map (granule) addresses). ``ifaces``: pre-built
     subordinate interfaces with memory maps (dense, same data width and granularity)."""
     gbits = (cfg["dw"] // cfg["g"]).bit_length() - 1
